@@ -158,6 +158,27 @@ Proof.
 Qed.
 
 (* ------------------------------------------------------------------ AddModule *)
+(* the walk over the modules below a replaced module terminates *)
+Lemma modtree_f_total : forall s, Inv s -> forall F a p, reg s a -> fullpath s a = Some p ->
+    (depthb s < F + length p)%nat -> exists T, modtree_f F (store s) a = Some T.
+Proof.
+  intros s HI. induction F as [|F IH]; intros a p Ha Hp Hlt.
+  - apply fullpath_f_len in Hp. lia.
+  - cbn. destruct (oconcat_total (modtree_f F (store s))
+                    (map snd (filter (fun nc => is_module (ocl (store s (snd nc)))) (ocont (store s a))))) as [l Hl].
+    + intros c Hc. apply in_map_iff in Hc. destruct Hc as [[n c'] [E Hin]]. cbn in E. subst c'.
+      apply filter_In in Hin. destruct Hin as [Hin _].
+      destruct (inv_cont s HI a n c Ha Hin) as [Hc1 [Hc2 _]].
+      apply (IH c (p ++ [oname (store s c)]) Hc1 (reg_child_path s HI c a p Hc1 Hc2 Hp)).
+      rewrite app_length. cbn. lia.
+    + rewrite Hl. eauto.
+Qed.
+Lemma modtree_total : forall s a, Inv s -> reg s a -> exists T, modtree_f (S (depthb s)) (store s) a = Some T.
+Proof.
+  intros s a HI Ha. destruct (reg_self s HI a Ha) as [p [Hp _]].
+  apply (modtree_f_total s HI _ a p Ha Hp). apply fullpath_f_len in Hp. lia.
+Qed.
+
 Lemma step_add_module_total : forall s pkg n parent, Inv s -> guard_add_module s pkg n parent ->
     exists s', step s (AddModule pkg n parent) = Some s'.
 Proof.
@@ -166,9 +187,80 @@ Proof.
   destruct (alloc_inv _ _ _ _ _ _ _ HI Ea) as [HI1 [Hob [Ha1 [Hr1 [Hun [Hlt [Hst [Hoth Hfp]]]]]]]].
   assert (Hreg : forall x, reg s1 x <-> reg s x) by (intros x; unfold reg; rewrite Ha1; tauto).
   assert (Hdep : depthb s1 = S (depthb s)) by (unfold alloc in Ea; inversion Ea; reflexivity).
-  assert (Hunp : unproc s1 = unproc s) by (unfold alloc in Ea; inversion Ea; reflexivity).
   assert (Hcl : ocl (store s1 ob) = if pkg then CPackage else CModule) by (rewrite Hst; reflexivity).
   assert (Hmod : is_module (ocl (store s1 ob)) = true) by (rewrite Hcl; destruct pkg; reflexivity).
+  assert (Hcovf : forall first, covered s first -> covered s1 first).
+  { intros first Hcov. apply (covered_frame s s1 first HI Ha1); [|exact Hcov].
+    intros o Ho. rewrite Hoth; [apply same_core_refl|]. intros E. apply Hun. apply Hreg. rewrite <- E. exact Ho. }
+  (* the common part of a replacement: first is removed, the name is free afterwards *)
+  assert (Hrepl : forall fn first, fullpath s1 ob = Some fn -> rget fn (allobj s) = Some first -> first <> ob ->
+             is_module (ocl (store s first)) = true -> ocls_eqb (ocl (store s first)) CPackage && negb pkg = false ->
+             covered s first ->
+             (forall st0 rt (r' : list id), (forall x, oname (st0 x) = oname (store s1 x) /\ oparent (st0 x) = oparent (store s1 x) /\
+                                                        ocl (st0 x) = ocl (store s1 x)) ->
+                forall m1, rget fn m1 = None ->
+                exists s', add_object (mkState st0 (next s1) m1 rt (depthb s1) r') ob = Some s') ->
+             exists s',
+               (if negb (is_module (ocl (store s1 first))) then None
+                else if ocls_eqb (ocl (store s1 first)) CPackage && negb (ocls_eqb (ocl (store s1 ob)) CPackage) then Some s1
+                else match remove_tree s1 first with
+                     | None => None
+                     | Some m1 =>
+                       match modtree_f (S (depthb s1)) (store s1) first with
+                       | None => None
+                       | Some mods =>
+                         let s0 := set_unproc (set_allobj s1 m1) (fold_left (fun u m => remove1 m u) mods (unproc s1)) in
+                         let s1' := match oparent (store s1 first) with
+                                    | None => s0
+                                    | Some p => match cget (oname (store s1 first)) (ocont (store s1 p)) with
+                                                | Some x => if N.eqb x first
+                                                            then set_store s0 (upd (store s1) p (with_cont (store s1 p)
+                                                                 (cdel (oname (store s1 first)) (ocont (store s1 p)))))
+                                                            else s0
+                                                | None => s0
+                                                end
+                                    end in
+                         let s2 := mkState (store s1') (next s1') (allobj s1') (remove1 first (roots s1')) (depthb s1') (unproc s1') in
+                         match fullpath s2 ob with
+                         | None => None
+                         | Some fn' => match rget fn' m1 with
+                                       | None => add_object (set_unproc s2 (unproc s2 ++ [ob])) ob
+                                       | Some _ => None
+                                       end
+                         end
+                       end
+                     end) = Some s').
+  { intros fn first Hobp Ef Hfne Hmodf Hcond Hcov Hadd.
+    rewrite (Hoth first Hfne), Hmodf. cbn [negb]. cbv iota.
+    assert (Hcond' : ocls_eqb (ocl (store s first)) CPackage && negb (ocls_eqb (ocl (store s1 ob)) CPackage) = false).
+    { rewrite Hcl. destruct pkg; cbn in *; [apply andb_false_r | exact Hcond]. }
+    rewrite Hcond'.
+    assert (Hf1 : reg s1 first) by (apply Hreg; exists fn; exact Ef).
+    destruct (remove_tree_total s1 first HI1 Hf1) as [T [m1 [HT Hm1]]].
+    unfold remove_tree. rewrite HT, Hm1.
+    destruct (modtree_total s1 first HI1 Hf1) as [mods Hmods]. rewrite Hmods. cbv zeta.
+    assert (Ef1 : rget fn (allobj s1) = Some first) by (rewrite Ha1; exact Ef).
+    assert (Hfree : rget fn m1 = None).
+    { destruct (rget fn m1) as [x|] eqn:E; [|reflexivity]. exfalso.
+      apply (del_walk_spec _ _ _ _ Hm1) in E. destruct E as [E1 E2]. rewrite Ef1 in E1. inversion E1; subst x.
+      apply (E2 first); [eapply subtree_f_head; exact HT | apply (inv_I1 s1 HI1); exact Ef1]. }
+    assert (Hfin : forall st0 rt r r', (forall x, oname (st0 x) = oname (store s1 x) /\ oparent (st0 x) = oparent (store s1 x) /\
+                                                  ocl (st0 x) = ocl (store s1 x)) ->
+               exists s', match fullpath (mkState st0 (next s1) m1 rt (depthb s1) r) ob with
+                          | Some fn' => match rget fn' m1 with
+                                        | Some _ => None
+                                        | None => add_object (mkState st0 (next s1) m1 rt (depthb s1) r') ob
+                                        end
+                          | None => None
+                          end = Some s').
+    { intros st0 rt r r' Hnp. unfold fullpath. cbn [store depthb].
+      rewrite (fullpath_f_ext (store s1) st0 (fun x => conj (proj1 (Hnp x)) (proj1 (proj2 (Hnp x))))).
+      unfold fullpath in Hobp. rewrite Hobp, Hfree.
+      apply (Hadd st0 rt r' Hnp m1 Hfree). }
+    destruct (oparent (store s first)) as [p|];
+      [destruct (cget (oname (store s first)) (ocont (store s1 p))) as [x|]; [destruct (N.eqb x first)|]|];
+      unfold set_unproc, set_allobj, set_store; cbn [store next allobj roots depthb unproc]; apply Hfin; auto.
+    intros y. unfold upd. destruct (N.eqb y p) eqn:E; [apply N.eqb_eq in E; subst y; cbn; auto | auto]. }
   unfold add_unprocessed_module.
   destruct parent as [q|]; cbn [guard_add_module] in Hg.
   - destruct Hg as [Hq [Hqp Hdup]].
@@ -186,44 +278,16 @@ Proof.
     rewrite Hobp. rewrite Ha1.
     destruct (rget (pq ++ [n]) (allobj s)) as [first|] eqn:Ef.
     + assert (Hfne : first <> ob) by (intros E; apply Hun; apply Hreg; rewrite <- E; exists (pq ++ [n]); exact Ef).
-      destruct (Hdup pq first Hpq Ef) as [[Hfc ->]|[Hmodf [Hcond [Hinu Hcov]]]].
+      destruct (Hdup pq first Hpq Ef) as [[Hfc ->]|[Hmodf [Hcond Hcov]]].
       { rewrite (Hoth first Hfne), Hfc. rewrite Hcl. cbn. eauto. }
-      rewrite (Hoth first Hfne), Hmodf. cbn [negb]. cbv iota.
-      assert (Hcond' : ocls_eqb (ocl (store s first)) CPackage && negb (ocls_eqb (ocl (store s1 ob)) CPackage) = false).
-      { rewrite Hcl. destruct pkg; cbn in *; [apply andb_false_r | exact Hcond]. }
-      rewrite Hcond'.
-      assert (Hf1 : reg s1 first) by (apply Hreg; exists (pq ++ [n]); exact Ef).
-      destruct (remove_tree_total s1 first HI1 Hf1) as [T [m1 [HT Hm1]]].
-      unfold remove_tree. rewrite HT, Hm1.
-      assert (Hex : existsb (N.eqb first) (unproc s1) = true).
-      { rewrite Hunp. apply existsb_exists. exists first. split; [exact Hinu | apply N.eqb_refl]. }
-      rewrite Hex. cbn [negb]. cbv iota.
-      assert (Hcov1 : covered s1 first).
-      { apply (covered_frame s s1 first HI Ha1); [|exact Hcov].
-        intros o Ho. rewrite Hoth; [apply same_core_refl|]. intros E. apply Hun. apply Hreg. rewrite <- E. exact Ho. }
-      rewrite <- Ha1 in Ef.
-      assert (Hfree : rget (pq ++ [n]) m1 = None) by (apply (rm_fn_free s1 n pq HI1 first T m1 Ef Hcov1 HT Hm1)).
-      assert (Hfin : forall st0 r r',
-                 (forall x, oname (st0 x) = oname (store s1 x) /\ oparent (st0 x) = oparent (store s1 x)) ->
-                 exists s',
-                 match fullpath (mkState st0 (next s1) m1 (roots s1) (depthb s1) r) ob with
-                 | Some fn' => match rget fn' m1 with
-                               | Some _ => None
-                               | None => add_object (mkState st0 (next s1) m1 (roots s1) (depthb s1) r') ob
-                               end
-                 | None => None
-                 end = Some s').
-      { intros st0 r r' Hnp.
-        assert (Hf0 : forall F x, fullpath_f F st0 x = fullpath_f F (store s1) x)
-          by (intros F x; apply fullpath_f_ext; exact Hnp).
-        unfold fullpath. cbn [store depthb]. rewrite Hf0. unfold fullpath in Hobp. rewrite Hobp. rewrite Hfree.
-        unfold add_object. cbn [store]. destruct (Hnp ob) as [N1 N2]. rewrite N2, Hop, N1, Hon.
-        unfold fullpath. cbn [store depthb set_store].
-        rewrite (fullpath_f_ext st0); [|intros y; unfold upd; destruct (N.eqb y q) eqn:E; [apply N.eqb_eq in E; subst y|]; cbn; auto].
-        rewrite Hf0, Hobp. cbn [allobj set_store]. rewrite Hfree. eauto. }
-      destruct (oparent (store s first)) as [p|]; [|apply Hfin; auto].
-      destruct (cget (oname (store s first)) (ocont (store s1 p))) as [x|]; [destruct (N.eqb x first)|]; try (apply Hfin; auto).
-      intros y. cbn [store set_store]. unfold upd. destruct (N.eqb y p) eqn:E; [apply N.eqb_eq in E; subst y; cbn; auto | auto].
+      apply (Hrepl (pq ++ [n]) first Hobp Ef Hfne Hmodf Hcond Hcov).
+      intros st0 rt r' Hnp m1 Hfree.
+      assert (Hf0 : forall F x, fullpath_f F st0 x = fullpath_f F (store s1) x)
+        by (intros F x; apply fullpath_f_ext; intros y; destruct (Hnp y) as [A1 [A2 _]]; auto).
+      unfold add_object. cbn [store]. destruct (Hnp ob) as [N1 [N2 _]]. rewrite N2, Hop, N1, Hon.
+      unfold fullpath. cbn [store depthb set_store].
+      rewrite (fullpath_f_ext st0); [|intros y; unfold upd; destruct (N.eqb y q) eqn:E; [apply N.eqb_eq in E; subst y|]; cbn; auto].
+      unfold fullpath in Hobp. rewrite Hf0, Hobp. cbn [allobj set_store]. rewrite Hfree. eauto.
     + assert (HI1u : Inv (set_unproc s1 (unproc s1 ++ [ob])))
         by (apply (Inv_frame s1); cbn; auto; try lia; intros; apply same_core_refl).
       apply (add_object_child_total (set_unproc s1 (unproc s1 ++ [ob])) ob q n pq HI1u Hlt Hun Hop Hon).
@@ -232,14 +296,23 @@ Proof.
       * exact Hobp.
   - assert (Hobp : fullpath s1 ob = Some [n]).
     { unfold fullpath. rewrite Hdep. cbn. rewrite Hst. reflexivity. }
-    rewrite Hobp. rewrite Ha1. destruct Hg as [Hnew|[first [Hf [Hfc ->]]]].
-    + rewrite Hnew. unfold add_object. cbn [store set_unproc]. rewrite Hst. cbn [oparent ocl].
+    assert (Hop : oparent (store s1 ob) = None) by (rewrite Hst; reflexivity).
+    rewrite Hobp. rewrite Ha1.
+    destruct (rget [n] (allobj s)) as [first|] eqn:Ef.
+    + assert (Hfne : first <> ob) by (intros E; apply Hun; apply Hreg; rewrite <- E; exists [n]; exact Ef).
+      destruct (Hg first eq_refl) as [[Hfc ->]|[Hmodf [Hcond Hcov]]].
+      { rewrite (Hoth first Hfne), Hfc. rewrite Hcl. cbn. eauto. }
+      apply (Hrepl [n] first Hobp Ef Hfne Hmodf Hcond Hcov).
+      intros st0 rt r' Hnp m1 Hfree.
+      unfold add_object. cbn [store]. destruct (Hnp ob) as [N1 [N2 N3]]. rewrite N2, Hop, N3, Hmod.
+      unfold fullpath. cbn [store depthb].
+      rewrite (fullpath_f_ext (store s1) st0 (fun x => conj (proj1 (Hnp x)) (proj1 (proj2 (Hnp x))))).
+      unfold fullpath in Hobp. rewrite Hobp.
+      cbn [allobj]. rewrite Hfree. eauto.
+    + unfold add_object. cbn [store set_unproc]. rewrite Hst. cbn [oparent ocl].
       assert (E : is_module (if pkg then CPackage else CModule) = true) by (destruct pkg; reflexivity). rewrite E.
       unfold fullpath. cbn [store depthb set_unproc]. unfold fullpath in Hobp. rewrite Hobp.
-      cbn [allobj set_unproc]. rewrite Ha1, Hnew. eauto.
-    + rewrite Hf.
-      assert (Hfne : first <> ob) by (intros E; apply Hun; apply Hreg; rewrite <- E; exists [n]; exact Hf).
-      rewrite (Hoth first Hfne), Hfc. rewrite Hcl. cbn. eauto.
+      cbn [allobj set_unproc]. rewrite Ha1, Ef. eauto.
 Qed.
 
 (* ------------------------------------------------------------------ Reparent *)
